@@ -29,9 +29,9 @@ from vh import core, pytolean
 
 GEN_DIR = os.path.join(core.LEAN_DIR, 'SkModel', 'Gen')
 PROP_FUNCS = {
-    'C11': ['find_token', 'find_token_reverse', 'try_find_line'],
-    'C04': ['find_token', 'find_token_reverse', 'try_find_line'],
-    'C13': ['find_token', 'find_token_reverse', 'try_find_line'],
+    'C11': ['find_token', 'find_token_reverse', 'try_find_line', 'try_find_line_with_date'],
+    'C04': ['find_token', 'find_token_reverse', 'try_find_line', 'try_find_line_with_date'],
+    'C13': ['find_token', 'find_token_reverse', 'try_find_line', 'try_find_line_with_date'],
     'C16': ['since_window', 'line_date_is_valid', 'apply_to_line'],
     'C18': ['num_parallel_tasks'],
 }
